@@ -414,3 +414,97 @@ theorem start_bounded (adds : List Add) (quitAt : Nat) : Bounded (lastTime quitA
   exact hl.2 _ (List.mem_map_of_mem he)
 
 end Sdc.UdpSendLoop
+
+namespace Sdc.UdpLife
+
+/-- a started node refers to a running thread, a node that is not started to none -/
+def Ok (n : Node) : Prop := (n.started = true → n.thread = some true) ∧ (n.started = false → n.thread = none ∧ n.services = [])
+
+theorem ok_init : Ok {} := by simp [Ok]
+
+theorem step_ok (n : Node) (o : Op) (h : Ok n) : Ok (step n o).1 := by
+  obtain ⟨h1, h2⟩ := h
+  cases o with
+  | start =>
+    simp only [step]
+    split
+    · exact ⟨h1, h2⟩
+    · rename_i hs
+      have hs' : n.started = false := by simpa using hs
+      have := (h2 hs').1
+      simp [Ok, this]
+  | stop =>
+    simp only [step]
+    split
+    · exact ⟨h1, h2⟩
+    · simp [Ok]
+  | publish e =>
+    simp only [step]
+    split
+    · exact ⟨h1, h2⟩
+    · rename_i hs
+      have hs' : n.started = true := by simpa using hs
+      refine ⟨fun _ => h1 hs', fun hf => ?_⟩
+      simp [hs'] at hf
+  | clear e =>
+    simp only [step]
+    split
+    · rename_i he
+      refine ⟨h1, fun hf => ?_⟩
+      have := (h2 hf).2
+      rw [this] at he; simp at he
+    · exact ⟨h1, h2⟩
+
+theorem step_hands (n : Node) (o : Op) (h : Ok n) : ∀ l, (step n o).2 = some l → ∀ b ∈ l, b = true := by
+  obtain ⟨h1, h2⟩ := h
+  intro l hl b hb
+  cases o with
+  | start =>
+    simp only [step] at hl
+    split at hl <;> (cases hl; simp at hb)
+  | stop =>
+    simp only [step] at hl
+    split at hl
+    · cases hl; simp at hb
+    · rename_i hs
+      have hs' : n.started = true := by simpa using hs
+      cases hl
+      simp only [List.mem_map] at hb
+      obtain ⟨_, _, rfl⟩ := hb
+      simp [hand, h1 hs']
+  | publish e =>
+    simp only [step] at hl
+    split at hl
+    · cases hl
+    · rename_i hs
+      have hs' : n.started = true := by simpa using hs
+      cases hl
+      simp only [List.mem_singleton] at hb
+      subst hb
+      simp [hand, h1 hs']
+  | clear e =>
+    simp only [step] at hl
+    split at hl
+    · rename_i he
+      cases hl
+      simp only [List.mem_singleton] at hb
+      subst hb
+      have hs' : n.started = true := by
+        cases hst : n.started with
+        | true => rfl
+        | false => have := (h2 hst).2; rw [this] at he; simp at he
+      simp [hand, h1 hs']
+    · cases hl
+
+theorem run_hands (n : Node) (ops : List Op) (h : Ok n) :
+    ∀ r ∈ run n ops, ∀ l, r = some l → ∀ b ∈ l, b = true := by
+  induction ops generalizing n with
+  | nil => simp [run]
+  | cons o os ih =>
+    intro r hr l hl b hb
+    simp only [run, List.mem_cons] at hr
+    rcases hr with rfl | hr
+    · exact step_hands n o h l hl b hb
+    · exact ih (step n o).1 (step_ok n o h) r hr l hl b hb
+
+end Sdc.UdpLife
